@@ -51,6 +51,9 @@ def evalR : Nat := 16     -- [i]               R pushed through steps[i]
 def loadR : Nat := 17     -- [src]             R = Q[src]
 def split : Nat := 18     -- [i]               splitting_comput on steps[i].codomain
 def dblIterP : Nat := 19  -- [dst, k, src]     points[dst] = [2^k] points[src]  (double_couple_jac_point_iter)
+def eval2 : Nat := 20     -- [dst, src, n]     n points starting at A[src] pushed through the current 2-isogeny into A[dst]
+def stepR : Nat := 21     -- [5, i, a1, k1, a2, k2, b1, b2]  generic theta step steps[i] with kernel pair (A1[k1], A2[k2])
+def copyA : Nat := 22     -- [da, di, sa, si]  A_da[di] = A_sa[si]  (struct copy between two tracked arrays)
 end EvKind
 
 structure IArr where
